@@ -9,6 +9,7 @@ import (
 	"os"
 	"path/filepath"
 	"sort"
+	"strings"
 	"testing"
 
 	"github.com/0xrawsec/sod"
@@ -101,7 +102,7 @@ func TestC11(t *testing.T) {
 		prog := g.Program()
 		var faults []Fault
 		n := g.uni(6, "nfaults")
-		kinds := []string{"rmfile", "rmfile", "addfile", "addfile", "rmentry", "rmentry", "rmschema", "drop1", "swap", "rmfile+entry", "rmallfiles"}
+		kinds := []string{"rmfile", "rmfile", "addfile", "addfile", "rmentry", "rmentry", "rmschema", "drop1", "swap", "dup1", "rmfile+entry", "rmallfiles"}
 		for i := 0; i < n; i++ {
 			f := Fault{K: pickU(g, kinds, "faultkind"), Ref: g.uni(64, "fref")}
 			if f.K == "addfile" {
@@ -256,7 +257,7 @@ func caseC11(t TB, prog *Program) {
 				schemaRemoved = true
 				kinds["rmschema"] = true
 			}
-		case "drop1", "swap":
+		case "drop1", "swap", "dup1":
 			if schemaRemoved {
 				continue
 			}
@@ -271,7 +272,19 @@ func caseC11(t TB, prog *Program) {
 			}
 			fi := fields[names[f.Ref%len(names)]].(map[string]interface{})
 			tuples, _ := fi["index"].([]interface{})
-			if f.K == "drop1" {
+			if f.K == "dup1" {
+				// size-preserving: one object indexed twice, its neighbour not at all
+				if len(tuples) < 2 {
+					continue
+				}
+				k := f.Ref % (len(tuples) - 1)
+				a, b := tuples[k].([]interface{}), tuples[k+1].([]interface{})
+				if fmt.Sprint(a[1]) == fmt.Sprint(b[1]) {
+					continue
+				}
+				tuples[k+1] = []interface{}{b[0], a[1]}
+				inconsistent = true
+			} else if f.K == "drop1" {
 				if len(tuples) == 0 {
 					continue
 				}
@@ -448,6 +461,17 @@ func schemaInconsistent(s *WSchema) bool {
 	for _, fi := range s.Index.Fields {
 		if len(fi.Index) != len(s.Index.ObjectIds) {
 			return true
+		}
+		seenIDs := map[string]bool{}
+		for _, tup := range fi.Index {
+			if len(tup) == 2 {
+				seenIDs[strings.TrimSpace(string(tup[1]))] = true
+			}
+		}
+		for oid := range s.Index.ObjectIds {
+			if !seenIDs[oid] {
+				return true // an object no field index entry refers to
+			}
 		}
 		var prev *norm
 		for _, tup := range fi.Index {
